@@ -587,7 +587,7 @@ class RandMaxVar(MaxVar):
 
             # Proposing the initial point.
             if self._init_from_prior:
-                theta_init = self.prior.rvs(random_state=self.random_state)
+                theta_init = np.atleast_1d(self.prior.rvs(random_state=self.random_state))
                 for idx_param, bound in enumerate(gp.bounds):
                     theta_init[idx_param] = np.clip(theta_init[idx_param], bound[0], bound[1])
 
